@@ -39,7 +39,8 @@ ASSUMPTIONS = ["parents are well-formed trees over the universal set; function s
 TRUSTED = ["models: coq/theories/GPOps.v (+ Tree.v TreeIdx.v RandomPrims.v); checkers C08Check.v",
            "termination of the rejection / growth loops (fuel = number of draws supplied)"]
 THEORIES = ["Base", "RandomPrims", "RandomPrimsProofs", "RandomPrimsProofs2", "Tree", "TreeIdx", "TreeEval",
-            "TreeProofs", "TreeProofs2", "TreeCR", "C11Check", "C09Check", "GPOps", "C08Check"]
+            "TreeProofs", "TreeProofs2", "TreeCR", "C11Check", "C09Check", "GPOps", "GPOpsProofs",
+            "GPOpsProofs2", "GPOpsProofs3", "GPOpsProofs4", "GPOpsProofs5", "C08Check"]
 IMPORTS = ("From Coq Require Import List Arith ZArith QArith.\n"
            "From TF Require Import Base RandomPrims Tree TreeIdx GPOps C09Check C08Check.\nOpen Scope nat_scope.")
 CTYPE = ("nat * list (ptree sy) * (list Q * list Q) * (nat * nat * Q) * uni * list draw * option (list (ptree sy))")
@@ -349,7 +350,7 @@ class Checker:
         self.ctx, self.rep = ctx, rep
         self.cases = C.CoqCases(ctx.scratch, "gpops", IMPORTS, "chk_op", CTYPE, shard=400)      # enumerated: small trees
         self.cases_big = C.CoqCases(ctx.scratch, "gpops_big", IMPORTS, "chk_op", CTYPE, shard=120)  # generated / harvested
-        self.crk = C.CoqCases(ctx.scratch, "crkrec", IMPORTS, "chk_crk_rec", "list (list sy)", shard=300)
+        self.crk = C.CoqCases(ctx.scratch, "region", IMPORTS, "chk_region", "list (list sy)", shard=300)
         self.crk_seen = set()
         self.unis = {}
 
@@ -758,7 +759,7 @@ def run(ctx, rep):
             rep.problem(fc.name, "model evaluation failed: %s" % (e,), {}, "model-eval", False)
         for i in bad[:20]:
             what = ("model and implementation disagree" if fc is not ck.crk else
-                    "k-tree common_region walk differs from the recursive common region (hypothesis of C08_uniform_k_closed)")
+                    "get_common_region (k-tree walk) differs from the recursive common region: the hypothesis of C08_uniform_k_closed_partial fails on these parents")
             rep.problem(fc.name, what, fc.meta[i], fc.name + ":model-vs-impl", False, None,
                         fc.explain(i, "let '(code, ps, (f, r), (ml, pop, proba), U, ds, out) := c in run_op code ps f r ml pop proba U ds")[:1500]
                         if fc is not ck.crk else None)
